@@ -44,11 +44,17 @@ def apply_variant(v: dict) -> Tuple[Optional[Dict[str, str]], str]:
                 text = normalised(path)
             except SyntaxError as e:
                 return None, f"{ed['file']} does not parse: {e}"
-        n = text.count(ed["old"])
-        want = ed.get("count", 1)
-        if n != want:
-            return None, f"anchor text occurs {n}x (expected {want}) in {ed['file']}: {ed['old'][:60]!r}"
-        text = text.replace(ed["old"], ed["new"])
+        if "transform" in ed:
+            new_text = ed["transform"](text)
+            if new_text is None or new_text == text:
+                return None, f"transform does not apply to {ed['file']}"
+            text = new_text
+        else:
+            n = text.count(ed["old"])
+            want = ed.get("count", 1)
+            if n != want:
+                return None, f"anchor text occurs {n}x (expected {want}) in {ed['file']}: {ed['old'][:60]!r}"
+            text = text.replace(ed["old"], ed["new"])
         try:
             compile(text, ed["file"], "exec")
         except SyntaxError as e:
